@@ -12,7 +12,7 @@ import (
 func init() {
 	register(&PropRule{
 		ID:    "C20",
-		Roots: []string{"./pkg/slayers"},
+		Roots: []string{"./pkg/slayers", "./dispatcher"},
 		Explain: "Decides the structural clauses of the checksum computation. (A1) The value returned by " +
 			"upperLayerChecksum is the incoming sum plus exactly the terms byte[i]<<8 and byte[i+1] for " +
 			"i = 0, 2, ... < len-1 and, behind len%2 == 1, byte[len-1]<<8 - every byte of the upper layer is " +
@@ -111,6 +111,7 @@ func termList(m map[string]int) []string {
 }
 
 func runC20(c *Ctx) {
+	shimRepliesComputeChecksums(c, "S2-generated-packets-compute-checksums")
 	sT := "(*pkg/slayers.SCION)."
 	idx := "phi((… + 2) | 0)"
 	checkTerms := func(rule string, v *FnView, want []string) {
